@@ -275,7 +275,7 @@ func streamNssai(c *ctx) {
 		}
 		for pi, p := range pos {
 			for l := 0; l < 256; l++ {
-				m := append([]byte{}, buf...)
+				m := hk.Exact(buf)
 				m[p] = byte(l)
 				for cut := len(m); cut >= p+1; cut-- {
 					// cases: all length octets untruncated at each position of the first base; sampled otherwise
@@ -696,10 +696,10 @@ func streamLadn(c *ctx) {
 		checkRaw(base[:cut], true)
 	}
 	for l := 0; l < 256; l++ {
-		m := append([]byte{}, base...)
+		m := hk.Exact(base)
 		m[4] = byte(l)
 		checkRaw(m, c.r.Thorough() || l < 16 || l%16 == 0 || l == 255)
-		m2 := append(append([]byte{}, m...), c.r.Rng.Bytes(l)...)
+		m2 := append(hk.Exact(m), c.r.Rng.Bytes(l)...)
 		checkRaw(m2, c.r.Thorough() || l%32 == 5)
 	}
 }
